@@ -160,7 +160,9 @@ loop:
 			Msg("Exited")
 
 		if p.isDaemonLaunched() {
-			p.setState(types.ProcessStateLaunched)
+			// a stop request may have arrived while the launcher was still running: the
+			// process stays Terminating until the daemon is reported stopped
+			p.setLaunchedUnlessTerminating()
 			p.waitForDaemonCompletion()
 		}
 
